@@ -1,0 +1,14 @@
+//go:build verif
+
+package email
+
+// Contracts for govc (contract-based deductive verification). Comment-only file.
+
+// C20: the verdict of an e-mail delivery is the answer the server gives when the message body is closed (the final
+// 250): the helper that closes the DATA writer hands that answer through unchanged - whatever it is, a dropped
+// connection (EOF) included - so an unacknowledged body is never reported as delivered.
+//@ func (*Email).Notify$2
+//@   props C20
+//@   nosafe
+//@   ensures [the-server_s-answer-to-the-body-unchanged] count("WriteCloser).Close") == 1 && result == ret("WriteCloser).Close")
+//@   noeffect WriteCloser).Close
